@@ -1749,6 +1749,8 @@ REQUIRED_PROBES = ["iv.do.non_source", "iv.shift.non_source", "iv.noise.non_sour
                    "utils.unseeded_call",
                    "nd.check_valid"]
 
+REQUIRED_PROBES = REQUIRED_PROBES + ["thread.calls_outside_main_thread", "fault.died_in_a_numpy_call(np.*)", "sweep.np_star", "sample.giant(>=2**20 values)"]
+
 
 def simplify(op):
     if op.get("op") == "m.call":
